@@ -23,6 +23,26 @@ type Label struct{ Tag, Value, Pointer string }
 var alphabet = []Label{
 	{"NOTE", "a", ""}, {"NOTE", "b", ""}, {"BIRT", "", ""}, {"RESI", "", ""},
 	{"DATE", "1 Jan 1900", ""}, {"DATE", "2 Feb 1901", ""}, {"OCCU", "a", "P1"},
+	{"FAM", "", "F1"}, {"CHIL", "@P3@", ""}, {"HUSB", "@P1@", ""},
+}
+
+// labels of the reduced alphabet used for one node more
+var reduced = []int{0, 1, 2}
+
+func legal(t Tree) bool {
+	for i, l := range t.Levels {
+		switch alphabet[t.Labels[i]].Tag {
+		case "FAM":
+			if l != 0 {
+				return false
+			}
+		case "HUSB", "CHIL":
+			if l != 1 || alphabet[t.Labels[0]].Tag != "FAM" {
+				return false
+			}
+		}
+	}
+	return true
 }
 
 type Tree struct {
@@ -66,8 +86,23 @@ func allTrees(maxN int) []Tree {
 		per := gen.Pow(len(alphabet), n)
 		for si := range shapes {
 			for idx := int64(0); idx < per; idx++ {
-				out = append(out, Tree{Levels: shapes[si], Labels: gen.Digits(idx, len(alphabet), n)})
+				if t := (Tree{Levels: shapes[si], Labels: gen.Digits(idx, len(alphabet), n)}); legal(t) {
+					out = append(out, t)
+				}
 			}
+		}
+	}
+	// one node more over the reduced alphabet {NOTE a, NOTE b, BIRT}: equal siblings below the first level
+	n := maxN + 1
+	shapes := gen.AllTrees(n)
+	per := gen.Pow(len(reduced), n)
+	for si := range shapes {
+		for idx := int64(0); idx < per; idx++ {
+			ds := gen.Digits(idx, len(reduced), n)
+			for i := range ds {
+				ds[i] = reduced[ds[i]]
+			}
+			out = append(out, Tree{Levels: shapes[si], Labels: ds})
 		}
 	}
 	return out
